@@ -75,8 +75,39 @@ def gen(ctx: common.Ctx, n_hist: int, steps: tuple[int, int], explore: bool = Fa
         targets = ["main.py"] if follow == "normal" else ["."]
         yield {"fn": "vlib.tasks.daemon:run_history",
                "args": {"versions": h["versions"], "flags": flags, "targets": targets, "modes": modes,
-                        "consistency": ctx.tier == "thorough" and k % 5 == 0, "mtime_back": h["mtime_back"]},
+                        "consistency": ctx.tier == "thorough" and k % 5 == 0, "mtime_back": h["mtime_back"], "deps_monitor": True},
                "_k": ("x" if explore else "core" if ctx.tier == "quick" else "tcore") + str(k), "_ops": h["ops"], "_follow": follow, "_explore": explore}
+
+
+def gen_propagation(ctx: common.Ctx) -> Iterator[dict[str, Any]]:
+    """Deterministic matrix: a target acquires a dependency only through re-checking (the type flowing into it changes
+    class), then exactly that dependency changes.  a uses b.g(); b.g returns c.X or c.Y; d uses both classes directly."""
+    forms = {
+        "call-chain-in-function": "import b\ndef use() -> int:\n    return b.g().meth()\n",
+        "top-level": "import b\nv = b.g().meth()\nreveal_type(v)\nw: int = b.g().attr\n",
+        "attribute-via-local": "import b\ndef use() -> int:\n    x = b.g()\n    return x.attr\n",
+        "method-of-class": "import b\nclass K:\n    def m(self) -> int:\n        return b.g().meth() + b.g().attr\n",
+        "from-import": "from b import g\ndef use() -> int:\n    r = g()\n    return r.meth() + r.attr\n",
+    }
+
+    def files(form: str, ret: str, xk: str, yk: str) -> dict[str, str]:
+        val = {"int": "0", "str": "''"}
+        c = "".join(f"class {n}:\n    attr: {k} = {val[k]}\n    def meth(self) -> {k}:\n        return {val[k]}\n" for n, k in (("X", xk), ("Y", yk)))
+        return {"main.py": "import a\nimport d\n", "a.py": forms[form], "b.py": f"import c\ndef g() -> c.{ret}:\n    return c.{ret}()\n", "c.py": c,
+                "d.py": "import c\ndef hx(x: c.X) -> int:\n    return x.meth() + x.attr\ndef hy(y: c.Y) -> int:\n    return y.meth() + y.attr\n"}
+
+    walks = {"w1": [("X", "int", "int"), ("Y", "int", "int"), ("Y", "int", "str"), ("Y", "int", "int"), ("X", "int", "int"), ("X", "str", "int"), ("X", "int", "int")],
+             "w2": [("X", "int", "int"), ("Y", "int", "int"), ("X", "int", "int"), ("X", "str", "int"), ("Y", "str", "int"), ("Y", "str", "str"), ("Y", "int", "int")]}
+    for form in forms:
+        for wname, walk in walks.items():
+            for follow in ("normal", "error", "skip"):
+                for mode in ("check", "recheck"):
+                    versions = [files(form, *w) for w in walk]
+                    flags = [] if follow == "normal" else [f"--follow-imports={follow}"]
+                    yield {"fn": "vlib.tasks.daemon:run_history",
+                           "args": {"versions": versions, "flags": flags, "targets": ["main.py"] if follow == "normal" else ["."],
+                                    "modes": ["check"] + [mode] * (len(walk) - 1), "deps_monitor": True},
+                           "_k": f"prop:{form}:{wname}:{follow}:{mode}", "_ops": [["init"]] + [["sig"]] * (len(walk) - 1), "_follow": follow}
 
 
 def gen_corpus(ctx: common.Ctx, n: int) -> Iterator[dict[str, Any]]:
@@ -123,9 +154,11 @@ def run(ctx: common.Ctx) -> None:
             import itertools
             only = os.environ.get("VERIF_ONLY")   # triage aid: "explore" or "core"
             streams = []
-            if only != "explore":
-                streams += [gen(ctx, n_hist, steps), gen_corpus(ctx, n_corpus)]
-            if only != "core":
+            if only == "prop":
+                streams += [gen_propagation(ctx)]
+            elif only != "explore":
+                streams += [gen(ctx, n_hist, steps), gen_corpus(ctx, n_corpus), gen_propagation(ctx)]
+            if only not in ("core", "prop"):
                 streams += [gen(ctx, n_expl, steps, explore=True)]
             if only:
                 ctx.floor_nontrivial, ctx.floor_evaluations = 2, 2
@@ -157,6 +190,17 @@ def run(ctx: common.Ctx) -> None:
                         ctx.nontriv(tuple(ops), st["mode"], t["_follow"], min(ntarg, 6), tuple(st.get("updated_modules") or [])[:3])
                     if st.get("consistency", "ok") not in ("ok",) and str(st.get("consistency")).startswith("FAILED"):
                         ctx.violation("mergecheck-inconsistent-ast", st["consistency"], {"task": t, "step": st["i"]})
+                    dm = st.get("deps_monitor")
+                    if dm:
+                        ctx.extra["deps_monitor_edges_checked"] = ctx.extra.get("deps_monitor_edges_checked", 0) + dm.get("edges", 0)
+                        ctx.extra["deps_monitor_histories_checked"] = ctx.extra.get("deps_monitor_histories_checked", 0) + (1 if dm.get("edges") else 0)
+                        if dm.get("missing"):
+                            # observation, not a verdict: a missing edge is latent staleness (no response differs yet); the
+                            # propagation matrix and the histories decide the property on responses
+                            ctx.cell("deps-map-lacks-an-edge-a-fresh-daemon-derives")
+                            obs = ctx.extra.setdefault("deps_map_missing_edges_observed", [])
+                            if len(obs) < 10:
+                                obs.append({"history": t["_k"], "step": st["i"], "edges": dm["missing"][:3]})
                     if st.get("equal"):
                         if st["i"] and len(ctx.samples) < 6 and st["out"]:
                             ctx.sample({"history": t["_k"], "step": st["i"], "ops": ops, "mode": st["mode"],
